@@ -2,6 +2,15 @@ package main
 
 // C20: balances in shared memory and in .PASSWDS. One case is a whole history:
 //   1|<bytes of .PASSWDS>|k uid amount|k uid|...      k: 1 SetUMoney, 2 DeUMoney, 3 MoneyOf, 4 ptt.GetUser(id of slot).Money
+// and the other writers of the same user's record, interleaved with the money operations:
+//   5 uid <record bytes>        ptt.passwdSyncUpdate(uid, record)      (the record is the caller's: any Money in it)
+//   6 uid perm <record bytes>   ptt.SetUserPerm(nil, uid, record, perm)
+//   7 uid                       record := ptt.pwcuStart(uid, id in the file)   (kept by the driver until the matching 8)
+//   8 uid bump                  record.NumPosts += bump; ptt.pwcuEnd(uid, record)
+//   9 uid                       ptt.killUser(uid, id of the slot)
+//   10 uid <14 bytes>           cmbbs.PasswdUpdatePasswd     11 uid <50 bytes>  cmbbs.PasswdUpdateEmail
+//   12 uid                      ptt.pwcuIncNumPost(&UserecRaw{UserID: id in the file}, uid)
+// value of 5/6/8: the Money the caller's record carries after the call; of 7: the Money of the record returned.
 // The file is written, the segment is reset and cold-loaded from it, then every operation is run
 // (each under its own recover). After the load and after every step the driver prints
 //   <all MAX_USERS Money values of the attached segment> <file length> <n> <offset byte>*n
@@ -9,9 +18,11 @@ package main
 // preceded by  <status 0|1|3> <value> <error code> <Money field of that slot read back with cmbbs.PasswdQuery>.
 
 import (
+	"bytes"
 	"encoding/binary"
 	"errors"
 	"os"
+	"reflect"
 	"unsafe"
 
 	"github.com/Ptt-official-app/go-pttbbs/cache"
@@ -72,6 +83,49 @@ func c20Field(uid ptttype.UID) int64 {
 	return int64(int32(binary.LittleEndian.Uint32(b)))
 }
 
+// a record given as its canonical little-endian bytes (exactly USEREC_RAW_SZ of them)
+func c20Record(toks []string) *ptttype.UserecRaw {
+	if len(toks) != int(ptttype.USEREC_RAW_SZ) {
+		panic("badcase:record length")
+	}
+	rec := &ptttype.UserecRaw{}
+	if err := binary.Read(bytes.NewReader(ab(toks)), binary.LittleEndian, rec); err != nil {
+		panic("badcase:record")
+	}
+	return rec
+}
+
+// the user id stored in record uid of the file
+func c20FileID(uid ptttype.UID) *ptttype.UserID_t {
+	u, err := cmbbs.PasswdQuery(uid)
+	if err != nil {
+		panic("badcase:no record")
+	}
+	id := u.UserID
+	return &id
+}
+
+func c20Err(v int64, err error) []string {
+	if err != nil {
+		return []string{"3", oi(v), oi(c20ErrCode(err))}
+	}
+	return []string{"0", oi(v), "0"}
+}
+
+var c20Pending = map[ptttype.UID]*ptttype.UserecRaw{}
+
+// offsets (inside a record) of the bytes that encoding/binary reads as bool
+func c20BoolOffsets() []string {
+	out := []string{}
+	t := reflect.TypeOf(ptttype.UserecRaw{})
+	for i := 0; i < t.NumField(); i++ {
+		if t.Field(i).Type.Kind() == reflect.Bool {
+			out = append(out, oi(int64(t.Field(i).Offset)))
+		}
+	}
+	return out
+}
+
 func c20Step(g []string) (res []string) {
 	defer func() {
 		if r := recover(); r != nil {
@@ -110,6 +164,60 @@ func c20Step(g []string) (res []string) {
 			return []string{"3", "0", "98"}
 		}
 		return []string{"0", oi(int64(u.Money)), "0"}
+	case 5:
+		rec := c20Record(g[2:])
+		err := ptt.VerifPasswdSyncUpdate(uid, rec)
+		return c20Err(int64(rec.Money), err)
+	case 6:
+		rec := c20Record(g[3:])
+		_, err := ptt.SetUserPerm(nil, uid, rec, ptttype.PERM(uint32(au(g[2]))))
+		return c20Err(int64(rec.Money), err)
+	case 7:
+		if !uid.IsValid() {
+			panic("badcase:7")
+		}
+		rec, err := ptt.VerifPwcuStart(uid, c20FileID(uid))
+		if err != nil {
+			return []string{"3", "0", "98"}
+		}
+		c20Pending[uid] = rec
+		return []string{"0", oi(int64(rec.Money)), "0"}
+	case 8:
+		rec := c20Pending[uid]
+		if rec == nil {
+			panic("badcase:8")
+		}
+		delete(c20Pending, uid)
+		rec.NumPosts += uint32(au(g[2]))
+		err := ptt.VerifPwcuEnd(uid, rec)
+		return c20Err(int64(rec.Money), err)
+	case 9:
+		id, err := cache.GetUserID(uid)
+		if err != nil {
+			panic("badcase:9")
+		}
+		theID := *id
+		return c20Err(0, ptt.VerifKillUser(uid, &theID))
+	case 10:
+		h := &ptttype.Passwd_t{}
+		if len(g)-2 != len(h) {
+			panic("badcase:10")
+		}
+		copy(h[:], ab(g[2:]))
+		return c20Err(0, cmbbs.PasswdUpdatePasswd(uid, h))
+	case 11:
+		e := &ptttype.Email_t{}
+		if len(g)-2 != len(e) {
+			panic("badcase:11")
+		}
+		copy(e[:], ab(g[2:]))
+		return c20Err(0, cmbbs.PasswdUpdateEmail(uid, e))
+	case 12:
+		if !uid.IsValid() {
+			panic("badcase:12")
+		}
+		caller := &ptttype.UserecRaw{UserID: *c20FileID(uid)}
+		return c20Err(0, ptt.VerifPwcuIncNumPost(caller, uid))
 	}
 	panic("badcase:op")
 }
@@ -125,6 +233,7 @@ func init() {
 				init := ab(args[1])
 				must(os.WriteFile(ptttype.FN_PASSWD, init, 0o600))
 				env.reload(false)
+				c20Pending = map[ptttype.UID]*ptttype.UserecRaw{}
 				out := ok(c20Observe(init)...)
 				for _, g := range args[2:] {
 					if len(g) < 2 {
@@ -137,6 +246,11 @@ func init() {
 				return out
 			case 2: // constants as the compiled program sees them
 				return ok(oi(int64(ptttype.MAX_USERS)), oi(int64(ptttype.USEREC_RAW_SZ)), oi(int64(unsafe.Offsetof(ptttype.USEREC_RAW.Money))))
+			case 3: // layout of the fields the record writers touch, and of the bool bytes
+				b := c20BoolOffsets()
+				return append(ok(oi(int64(unsafe.Offsetof(ptttype.USEREC_RAW.UserLevel))), oi(int64(unsafe.Offsetof(ptttype.USEREC_RAW.NumPosts))),
+					oi(int64(unsafe.Offsetof(ptttype.USEREC_RAW.PasswdHash))), oi(int64(len(ptttype.Passwd_t{}))),
+					oi(int64(unsafe.Offsetof(ptttype.USEREC_RAW.Email))), oi(int64(len(ptttype.Email_t{}))), oi(int64(len(b)))), b...)
 			}
 			return []string{"9"}
 		},
